@@ -742,6 +742,11 @@ RESULTS = {
     "bool": ("bool", "", "bool", "(cnt % 2) == 1", "logical :: rv", "call plog('rv', rv)", lambda c: "rv=b:%d" % (c % 2), False),
     "chr": ("char", "", "char", "(char) ('A' + cnt % 26)", "character(len=1) :: rv", "call pstr('rv', rv)",
             lambda c: "rv=s:[%s]" % chr(65 + c % 26), False),
+    # results returned as they are by a bufferify / cfi function (no buf / cfi statements for the result)
+    "craw": ("const char *", " +deref(raw)", "const char *", "RS[1]", "type(C_PTR) :: rv", "call pptr('rv', rv)",
+             lambda c: "rv=p:1", False),
+    "iscal": ("int *", "", "int *", "RA + cnt", "integer(C_INT), pointer :: rv", "call pint('rv', rv)",
+              lambda c: "rv=i:%d" % RA[c], False, "=>"),
     "cstr": ("const char *", "", "const char *", "RS[cnt % 4]", "character(len=:), allocatable :: rv", "call pstrl('rv', rv)",
              lambda c: "rv=s:%d[%s]" % (len(RES_STR[c % 4]), RES_STR[c % 4]), False),
     "cstr_len": ("const char *", " +len(30)", "const char *", "RS[cnt % 4]", "character(len=30) :: rv", "call pstr('rv', rv)",
@@ -803,13 +808,10 @@ class Func:
         return [{"decl": d % g[0].n, "function_suffix": sfx} for d, sfx in g[0].gen]
 
     def cfi_ok(self):
-        """can this function be wrapped with F_CFI=true?  Arguments without a `_cfi` statement entry (std::vector,
-        T** out, char**) fall back to the bufferify statements (arg_to_CFI, fix in /repo); RESULTS that need the
-        context struct still cannot be combined with character arguments or results (open finding
-        c01:F_CFI-generation-fails:context-or-vector-argument)"""
-        stringy = any(isinstance(a, (CstrIn, CstrOut, CstrInout, StringIn, StringOut, StringInout, ImplText, CharArrIn))
-                      for a in self.args)
-        return not (self.res in ("vecres", "iptr", "ialloc", "iptr2", "ialloc2", "iptr3", "ialloc3") and stringy)
+        """can this function be wrapped with F_CFI=true?  Since the /repo fixes 653ba91 (arguments), 97a7646 and 302a66e
+        (results) every kind is: arguments and results without `_cfi` statements take the bufferify statements inside
+        the CFI function.  Kept as a hook: return False here to exclude a function from the F_CFI configurations."""
+        return True
 
     def cxx_only(self):
         return any(a.cxx_only for a in self.args) or (self.res != "void" and RESULTS[self.res][7]) or self.overload_of is not None
@@ -882,13 +884,21 @@ def fixed_spec(cxx):
         funcs.append(Func("rf%d" % i, res, [DimArg("fa%d" % i), DimArg2("fb%d" % i), DimArg3("fc%d" % i)]))
     funcs.append(Func("gvoid", "void", [GenVoid("addr")]))
     funcs.append(Func("arnk", "int", [AssumedRank("av")]))     # calls at rank 0, 1 and F_assumed_rank_max
+    # pointer results that a bufferify / cfi function returns unchanged (raw char*, scalar native pointer)
+    funcs.append(Func("rraw", "craw", [CstrOut("ro"), IntVal("rq")]))
+    funcs.append(Func("rsca", "iscal", [CstrInout("ri")]))
+    if cxx:
+        funcs.append(Func("rscv", "iscal", [VecOut("rv1"), StringIn("rs1")]))
     # character arguments mixed with kinds that have no `_cfi` entry: with F_CFI=true these take the bufferify
     # statements inside the CFI function; same trace required as with F_CFI=false
     funcs.append(Func("mixp", "void", [CstrIn("ms"), PtrPtrOut("mp"), CstrOut("mo")]))
     funcs.append(Func("mixc", "int", [CharArrIn("mc"), CstrInout("mi")]))
+    funcs.append(Func("mixr", "ialloc", [DimArg("md"), CstrIn("mr")]))
+    funcs.append(Func("mixq", "iptr2", [DimArg("mq1"), DimArg2("mq2"), CstrOut("mq3")]))
     if cxx:
         funcs.append(Func("mixv", "void", [StringIn("vs"), VecOut("vo"), VecIn("vi")]))
         funcs.append(Func("mixs", "int", [VecStrIn("sv"), CstrIn("sc")]))
+        funcs.append(Func("mixy", "vecres", [StringIn("ys"), CstrInout("yc")]))
         funcs.append(Func("mixw", "cstr", [VecInoutAlloc("wv"), StringOut("ws"), VecOutAlloc("wa")]))
     if cxx:
         funcs.append(Func("rvec", "vecres", [IntVal("qv")]))
@@ -1009,6 +1019,16 @@ subroutine plog(n, v)
     write(*,'(A,A,A)', advance='no') ' ', n, '=b:1'
   else
     write(*,'(A,A,A)', advance='no') ' ', n, '=b:0'
+  endif
+end subroutine
+subroutine pptr(n, v)
+  use iso_c_binding
+  character(len=*) :: n
+  type(C_PTR) :: v
+  if (c_associated(v)) then
+    write(*,'(A,A,A)', advance='no') ' ', n, '=p:1'
+  else
+    write(*,'(A,A,A)', advance='no') ' ', n, '=p:0'
   endif
 end subroutine
 subroutine pstr(n, v)
@@ -1212,7 +1232,7 @@ KIND_OF = {
     "VecInoutAlloc": ["vectorInoutAlloc"], "PtrPtrOut": ["ptrPtrOut"], "PtrPtrOutN": ["ptrPtrOut"], "PtrPtrOut3": ["ptrPtrOut"],
     "CharArrIn": ["charArrayIn"], "VecStrIn": ["vecStrIn"],
 }
-KIND_OF_RES = {"int": "native", "double": "native", "bool": "boolResult(default block)", "chr": "charScalarResult", "cstr_len": "charResult",
+KIND_OF_RES = {"craw": "native", "iscal": "native", "int": "native", "double": "native", "bool": "boolResult(default block)", "chr": "charScalarResult", "cstr_len": "charResult",
                "string_len": "stringResult", "vecres": "vectorResultAlloc", "iptr": "resultPointer", "ialloc": "resultAlloc",
                "iptr2": "resultPointer", "ialloc2": "resultAlloc", "iptr3": "resultPointer", "ialloc3": "resultAlloc",
                "cstr": "charResultAlloc", "string": "stringValResultAlloc", "string_ref": "stringResultAlloc"}
